@@ -1,68 +1,4 @@
-//! Clock shim: everything is real chrono except `Utc`, whose `now()` reads the
-//! simulated clock.  `DateTime<Utc>` arithmetic is untouched chrono code.
-pub use chrono_real::*;
-use std::sync::atomic::{AtomicI64, AtomicU64, Ordering};
-
-/// Simulated time in microseconds since the Unix epoch.
-static NOW_US: AtomicI64 = AtomicI64::new(EPOCH_US);
-/// Added to the clock after every `now()` call ("fine tick" fault kind); 0 = frozen.
-static TICK_US: AtomicI64 = AtomicI64::new(0);
-static NOW_CALLS: AtomicU64 = AtomicU64::new(0);
-
-pub const EPOCH_US: i64 = 1_700_000_000_000_000;
-
-pub fn sim_set_now_us(v: i64) {
-    NOW_US.store(v, Ordering::SeqCst)
-}
-pub fn sim_now_us() -> i64 {
-    NOW_US.load(Ordering::SeqCst)
-}
-pub fn sim_set_tick_us(v: i64) {
-    TICK_US.store(v, Ordering::SeqCst)
-}
-pub fn sim_now_calls() -> u64 {
-    NOW_CALLS.load(Ordering::SeqCst)
-}
-pub fn sim_reset(now_us: i64) {
-    NOW_US.store(now_us, Ordering::SeqCst);
-    TICK_US.store(0, Ordering::SeqCst);
-    NOW_CALLS.store(0, Ordering::SeqCst);
-}
-
-#[derive(Copy, Clone, Debug, PartialEq, Eq, Hash)]
-pub struct Utc;
-
-impl Utc {
-    pub fn now() -> DateTime<Utc> {
-        NOW_CALLS.fetch_add(1, Ordering::SeqCst);
-        let tick = TICK_US.load(Ordering::SeqCst);
-        let us = if tick != 0 {
-            NOW_US.fetch_add(tick, Ordering::SeqCst)
-        } else {
-            NOW_US.load(Ordering::SeqCst)
-        };
-        let n = chrono_real::DateTime::<chrono_real::Utc>::from_timestamp_micros(us)
-            .expect("simulated clock out of range")
-            .naive_utc();
-        DateTime::<Utc>::from_naive_utc_and_offset(n, chrono_real::Utc)
-    }
-}
-
-impl TimeZone for Utc {
-    type Offset = chrono_real::Utc;
-    fn from_offset(_: &chrono_real::Utc) -> Utc {
-        Utc
-    }
-    fn offset_from_local_date(&self, _: &NaiveDate) -> LocalResult<chrono_real::Utc> {
-        LocalResult::Single(chrono_real::Utc)
-    }
-    fn offset_from_local_datetime(&self, _: &NaiveDateTime) -> LocalResult<chrono_real::Utc> {
-        LocalResult::Single(chrono_real::Utc)
-    }
-    fn offset_from_utc_date(&self, _: &NaiveDate) -> chrono_real::Utc {
-        chrono_real::Utc
-    }
-    fn offset_from_utc_datetime(&self, _: &NaiveDateTime) -> chrono_real::Utc {
-        chrono_real::Utc
-    }
-}
+//! Harness-side handle on the clock seam: the patched chrono copy in ../chrono-sim
+//! (identical to chrono 0.4.40 except that `Utc::now()` reads `chrono::sim`).
+pub use chrono::sim::*;
+pub use chrono::*;
